@@ -8,7 +8,10 @@ import (
 	"go/types"
 )
 
-type unsupported struct{ reason string }
+type unsupported struct {
+	reason string
+	stack  string
+}
 
 func (u unsupported) Error() string { return "unsupported: " + u.reason }
 
@@ -131,15 +134,15 @@ func symBinop(i *interpreter, op token.Token, t, ty types.Type, x, y value) valu
 		case token.GEQ:
 			return boolVal(tCmp("bvsle", tConst(64, 0), bytesCmpTerm(a, b)))
 		}
-		panic(unsupported{"string op " + op.String()})
+		panic(unsupported{reason: "string op " + op.String()})
 	}
 	w, signed, ok := basicInfo(t)
 	if !ok {
-		panic(unsupported{fmt.Sprintf("symbolic %s on %s", op, t)})
+		panic(unsupported{reason: fmt.Sprintf("symbolic %s on %s", op, t)})
 	}
 	a, b := scalarTerm(x), scalarTerm(y)
 	if a == nil || b == nil {
-		panic(unsupported{fmt.Sprintf("symbolic %s on %T,%T", op, x, y)})
+		panic(unsupported{reason: fmt.Sprintf("symbolic %s on %T,%T", op, x, y)})
 	}
 	if w == 0 { // booleans
 		switch op {
@@ -152,7 +155,7 @@ func symBinop(i *interpreter, op token.Token, t, ty types.Type, x, y value) valu
 		case token.OR, token.LOR:
 			return boolVal(tOr(a, b))
 		}
-		panic(unsupported{"bool op " + op.String()})
+		panic(unsupported{reason: "bool op " + op.String()})
 	}
 	cmp := func(sop, uop string, l, r *term) value {
 		if signed {
@@ -233,7 +236,7 @@ func symBinop(i *interpreter, op token.Token, t, ty types.Type, x, y value) valu
 	case token.GEQ:
 		return cmp("bvsle", "bvule", b, a)
 	}
-	panic(unsupported{"symbolic binop " + op.String()})
+	panic(unsupported{reason: "symbolic binop " + op.String()})
 }
 
 func opaqueArith(op token.Token) value {
@@ -241,7 +244,7 @@ func opaqueArith(op token.Token) value {
 	case token.ADD, token.SUB, token.MUL, token.QUO:
 		return opaqueFloat{}
 	}
-	panic(unsupported{"float: comparison of a value derived from a symbolic integer"})
+	panic(unsupported{reason: "float: comparison of a value derived from a symbolic integer"})
 }
 
 func isStr(v value) bool {
@@ -268,7 +271,7 @@ func symUnop(op token.Token, t types.Type, x *sym) value {
 	case token.XOR:
 		return wrapTerm(t, tBVNot(x.e))
 	}
-	panic(unsupported{"symbolic unop " + op.String()})
+	panic(unsupported{reason: "symbolic unop " + op.String()})
 }
 
 // symConv converts symbolic scalar x from t_src to t_dst.
@@ -282,15 +285,15 @@ func symConv(tDst, tSrc types.Type, x *sym) value {
 			return opaqueFloat{}
 		}
 		if b, ok := tDst.Underlying().(*types.Basic); ok && b.Kind() == types.String {
-			panic(unsupported{"conversion of symbolic integer to string"})
+			panic(unsupported{reason: "conversion of symbolic integer to string"})
 		}
-		panic(unsupported{fmt.Sprintf("symbolic conversion %s -> %s", tSrc, tDst)})
+		panic(unsupported{reason: fmt.Sprintf("symbolic conversion %s -> %s", tSrc, tDst)})
 	}
 	if dw == 0 || sw == 0 {
 		if dw == sw {
 			return x
 		}
-		panic(unsupported{"bool/int conversion"})
+		panic(unsupported{reason: "bool/int conversion"})
 	}
 	return wrapTerm(tDst, tResize(x.e, dw, ssigned))
 }
@@ -299,7 +302,7 @@ func symConv(tDst, tSrc types.Type, x *sym) value {
 func toTerm(v value) *term {
 	e := scalarTerm(v)
 	if e == nil {
-		panic(unsupported{fmt.Sprintf("toTerm(%T)", v)})
+		panic(unsupported{reason: fmt.Sprintf("toTerm(%T)", v)})
 	}
 	return e
 }
